@@ -30,7 +30,8 @@ DirectKinds == {"null", "bool", "int", "real", "name", "string", "array", "dict"
 BaseKinds   == DirectKinds \cup {"stream"}
 SingleRep   == {"null", "stream"}          \* kinds that have a single representative value
 Containers  == {"root", "dict", "array"}
-Classes     == {"value", "offset"}
+Classes     == {"value", "offset", "content"}    \* content: an entry of a dictionary written inside a content stream
+                                                 \* (inline-image dictionary, BDC property list): no references there
 
 \* a site:   [id, ownerobj (0: no enclosing indirect object), cont, base (kind of the value, through references),
 \*            ind (the site holds a reference), cls (offset: the value is a file position)]
@@ -40,7 +41,7 @@ SeedOK(S) == /\ S.enc \in BOOLEAN                       \* the document is encry
              /\ \A s \in S.sites : SiteOK(s)
              /\ \A t \in S.streams : t.plen \in Nat /\ t.hdr \in Nat /\ \A fl \in t.fields : fl[1] + fl[2] <= t.plen
              /\ \A e \in S.ents : e.form \in {"table", "stream"}
-             /\ S.flen \in Nat \ {0}
+             /\ S.flen \in Nat \ {0} /\ S.fstride \in Nat \ {0}
              /\ \A s1, s2 \in S.sites : s1.id = s2.id => s1 = s2        \* sites are named uniquely
 
 F(cls, site, kind, to, variant, pos, mode) ==
@@ -49,10 +50,22 @@ F(cls, site, kind, to, variant, pos, mode) ==
 \* ------------------------------------------------------------------ replacing a value by a value of another type
 \* target: a kind other than the one the site has, planted directly ("k") or behind a reference ("r_k");
 \* a stream can only be planted behind a reference
-Targets(s) == {k \in DirectKinds : k # s.base} \cup {"r_" \o k : k \in BaseKinds \ {s.base}}
+Targets(s) == {k \in DirectKinds : k # s.base}
+              \cup (IF s.cls = "content" THEN {} ELSE {"r_" \o k : k \in BaseKinds \ {s.base}})
 KindOf(t) == IF t \in DirectKinds THEN t ELSE SubSeq(t, 3, Len(t))
-VariantsOf(t) == IF KindOf(t) \in SingleRep THEN {0} ELSE Variants
+\* representatives: the variants (for arrays, dictionaries and strings one of them is the EMPTY value); a name has the
+\* empty name "/" as a third one
+VariantsOf(t) == IF KindOf(t) \in SingleRep THEN {0} ELSE IF KindOf(t) = "name" THEN Variants \cup {2} ELSE Variants
 RetypeSet(s) == UNION {{F("value", s.id, "retype", t, v, 0, "") : v \in VariantsOf(t)} : t \in Targets(s)}
+
+\* ------------------------------------------------------------------ the empty value of the kind that is there
+\* retype never plants the kind a site already has; a container, string or name is also replaced by the EMPTY array /
+\* dictionary / string / name ([] is a legal /Filter, << >> a legal /Resources ...), directly and behind a reference
+EmptyKinds == {"array", "dict", "string", "name"}
+EmptyFaults(s) == IF s.base \in EmptyKinds /\ s.cls # "offset"
+                  THEN {F("value", s.id, "empty", t, 0, 0, "") :
+                           t \in {s.base} \cup (IF s.cls = "content" THEN {} ELSE {"r_" \o s.base})}
+                  ELSE {}
 
 \* ------------------------------------------------------------------ removing a key
 Deletes(s) == IF s.cont = "dict" THEN {F("value", s.id, "delete", "", 0, 0, "")} ELSE {}
@@ -85,7 +98,8 @@ OffFaults(s) == UNION {{F("value", s.id, k, "", 0, 0, m) : m \in Modes(k)} : k \
 RawForms == {0, 1}
 RawStrFaults(s) == IF s.enc /\ s.cls = "value" THEN {F("value", s.id, "rawstr", "", v, 0, "") : v \in RawForms} ELSE {}
 
-SiteFaults(s) == RetypeSet(s) \cup Deletes(s) \cup (IF s.cls = "offset" THEN OffFaults(s) ELSE RefFaults(s))
+SiteFaults(s) == RetypeSet(s) \cup Deletes(s) \cup EmptyFaults(s)
+                 \cup (CASE s.cls = "offset" -> OffFaults(s) [] s.cls = "value" -> RefFaults(s) [] OTHER -> {})
                  \cup RawStrFaults(s)
 
 \* ------------------------------------------------------------------ stream payloads and the file
@@ -106,7 +120,10 @@ PayloadFaults(t) ==
 \* once.  A single duplicated kid doubles one subtree; all of them together make a tree of depth d a "diamond chain"
 \* with 2**d paths - a traversal must still visit every node once (work in proportion to the input).
 MultiFaults == {F("multi", "", "dup_kids_all", "", 0, 0, m) : m \in {"", "nocache"}}
-FileFaults(S) == {F("file", "", "truncate", "", 0, p, "") : p \in Positions(S.flen, FileStride)} \cup MultiFaults
+\* (a seed may ask for a coarser stride of its own: long files whose every run is costly)
+Max2(a, b) == IF a > b THEN a ELSE b
+FileFaults(S) == {F("file", "", "truncate", "", 0, p, "") : p \in Positions(S.flen, Max2(FileStride, S.fstride))}
+                 \cup MultiFaults
 
 \* ------------------------------------------------------------------ cross-reference entries
 EntKinds(e) == {"ent_dangling", "ent_other", "ent_mid", "ent_free"} \cup
@@ -122,12 +139,12 @@ Anchors(S) ==
   {Anchor("site", s.id, s.ownerobj, s.cont, s.base, s.ind, s.cls, 0, "", S.enc, 0, {}) : s \in S.sites}
   \cup {Anchor("stream", t.id, 0, "", "stream", FALSE, "", t.plen, "", S.enc, t.hdr, t.fields) : t \in S.streams}
   \cup {Anchor("ent", e.id, 0, "", "", FALSE, "", 0, e.form, S.enc, 0, {}) : e \in S.ents}
-  \cup {Anchor("file", "", 0, "", "", FALSE, "", S.flen, "", S.enc, 0, {})}
+  \cup {Anchor("file", "", 0, "", "", FALSE, "", S.flen, "", S.enc, S.fstride, {})}     \* (hdr carries the seed's stride)
 FaultsAt(a) ==
   CASE a.t = "site"   -> SiteFaults(a)
     [] a.t = "stream" -> PayloadFaults([id |-> a.id, plen |-> a.n, hdr |-> a.hdr, fields |-> a.fields])
     [] a.t = "ent"    -> EntFaults(a)
-    [] a.t = "file"   -> FileFaults([flen |-> a.n])
+    [] a.t = "file"   -> FileFaults([flen |-> a.n, fstride |-> a.hdr])
 FaultSpace(S) == UNION {FaultsAt(a) : a \in Anchors(S)}
 
 \* ------------------------------------------------------------------ the size of the space, by arithmetic
@@ -136,12 +153,14 @@ NV == Cardinality(Variants)
 PerSiteRetypes(s) ==
   LET d1 == IF s.base = "null" THEN 0 ELSE 1                       \* direct null
       dn == Cardinality(DirectKinds \ {s.base, "null"})            \* other direct kinds, NV representatives each
+      nm == IF s.base = "name" THEN 0 ELSE 1                       \* the third representative of a name
       r1 == (IF s.base = "null" THEN 0 ELSE 1) + (IF s.base = "stream" THEN 0 ELSE 1)
       rn == Cardinality(BaseKinds \ {s.base, "null", "stream"})
-  IN d1 + dn * NV + r1 + rn * NV
+  IN d1 + dn * NV + nm + (IF s.cls = "content" THEN 0 ELSE r1 + rn * NV + nm)
 PerSite(s) == PerSiteRetypes(s) + (IF s.cont = "dict" THEN 1 ELSE 0)
+              + (IF s.base \in EmptyKinds /\ s.cls # "offset" THEN (IF s.cls = "content" THEN 1 ELSE 2) ELSE 0)
               \* offsets: 7 kinds, 4 of them cycles (x 2 modes); values: ref_missing + 2 loops x 2 modes (+ ref_self x 2)
-              + (IF s.cls = "offset" THEN 11 ELSE 5 + (IF s.ownerobj # 0 THEN 2 ELSE 0))
+              + (CASE s.cls = "offset" -> 11 [] s.cls = "value" -> 5 + (IF s.ownerobj # 0 THEN 2 ELSE 0) [] OTHER -> 0)
               + (IF s.enc /\ s.cls = "value" THEN Cardinality(RawForms) ELSE 0)
 NPos(n, stride) == IF n = 0 THEN 0 ELSE ((n - 1) \div stride) + 1 + (IF (n - 1) % stride = 0 THEN 0 ELSE 1)
 ExpectedAt(a) ==
@@ -150,7 +169,7 @@ ExpectedAt(a) ==
                          + Cardinality({p \in 0..(Min2(a.hdr, a.n) - 1) : p \notin Positions(a.n, PayloadStride)})
                          + 3 * Cardinality(a.fields)
     [] a.t = "ent"    -> IF a.form = "stream" THEN 9 ELSE 4
-    [] a.t = "file"   -> NPos(a.n, FileStride) + 2
+    [] a.t = "file"   -> NPos(a.n, Max2(FileStride, a.hdr)) + 2
 \* faults at different anchors differ in their site / class fields, so the space is the disjoint union over anchors
 ExpectedCount(S) == FoldSet(LAMBDA a, n : n + ExpectedAt(a), 0, Anchors(S))
 
@@ -191,6 +210,8 @@ Applicable ==
          /\ (fault.kind \in OffKinds => at.cls = "offset")
          /\ (fault.kind = "retype" => fault.to # "stream" /\ fault.variant \in VariantsOf(fault.to))
          /\ (fault.kind = "rawstr" => at.enc /\ at.cls = "value" /\ fault.variant \in RawForms)
+         /\ (fault.kind = "empty" => at.base \in EmptyKinds /\ KindOf(fault.to) = at.base)
+         /\ (at.cls = "content" => fault.kind \in {"retype", "delete", "empty"} /\ fault.to \in DirectKinds \cup {""})
     [] fault.cls = "payload" -> /\ at.t = "stream" /\ fault.site = at.id /\ fault.pos < at.n
                                 /\ (fault.kind = "setfield" => <<fault.pos, fault.variant>> \in at.fields
                                                                 /\ fault.pos + fault.variant <= at.n)
@@ -207,7 +228,9 @@ KindsPresent ==
   (at # NoAnchor /\ ~Damaged) =>
   LET sp == FaultsAt(at) IN
   CASE at.t = "site" ->
-         /\ \A k \in BaseKinds \ {at.base} : \E g \in sp : g.kind = "retype" /\ KindOf(g.to) = k    \* every other type
+         /\ \A k \in (IF at.cls = "content" THEN DirectKinds ELSE BaseKinds) \ {at.base} :
+               \E g \in sp : g.kind = "retype" /\ KindOf(g.to) = k                                   \* every other type
+         /\ (at.base \in EmptyKinds /\ at.cls # "offset" => \E g \in sp : g.kind = "empty" /\ g.to = at.base)  \* and the empty one
          /\ \A k \in DirectKinds \ {at.base} : \A v \in VariantsOf(k) : F("value", at.id, "retype", k, v, 0, "") \in sp
          /\ (at.cont = "dict" => \E g \in sp : g.kind = "delete")                                  \* removing the key
          /\ (at.cls = "offset" => \A k \in OffKinds : \E g \in sp : g.kind = k)                    \* every offset fault and style
@@ -221,7 +244,7 @@ KindsPresent ==
          /\ Positions(at.n, PayloadStride) \subseteq {g.pos : g \in {h \in sp : h.kind = "truncate"}}
          /\ \A p \in 0..(Min2(at.hdr, at.n) - 1) : F("payload", at.id, "truncate", "", 0, p, "") \in sp   \* every cut in the header
          /\ \A fl \in at.fields : \A v \in FieldValues : F("payload", at.id, "setfield", "", fl[2], fl[1], v) \in sp
-    [] at.t = "file" -> /\ {g.pos : g \in {h \in sp : h.cls = "file"}} = Positions(at.n, FileStride)     \* every truncation point
+    [] at.t = "file" -> /\ {g.pos : g \in {h \in sp : h.cls = "file"}} = Positions(at.n, Max2(FileStride, at.hdr))     \* every truncation point
                         /\ MultiFaults \subseteq sp
     [] at.t = "ent" -> sp # {}
 
